@@ -5,6 +5,7 @@ import PrefVerif.Driver.C02
 import PrefVerif.Driver.C17
 import PrefVerif.Driver.IO
 import PrefVerif.Driver.Domains
+import PrefVerif.Driver.C05
 open Lean PrefVerif.Driver
 
 def handlers : List (String × Handler) := [
@@ -24,7 +25,9 @@ def handlers : List (String × Handler) := [
   ("dom.sp", Domains.sp),
   ("dom.sc", Domains.sc),
   ("dom.spt", Domains.spt),
-  ("dom.c1p", Domains.c1p)
+  ("dom.c1p", Domains.c1p),
+  ("c05.profile", C05.profile),
+  ("c05.matrix", C05.matrix)
 ]
 
 def dispatch (j : Json) : Json :=
